@@ -79,12 +79,12 @@ CHECKS = {
         accept=["C01"], assumptions=RC_ASSUME, floor=dict(quick=50, thorough=500),
     ),
     "C02": dict(
-        jobs=rc_jobs("c02", "C02", "snap_destruct", focused="c02f", extra=[choreo_job("C02", "snap_destruct"), scen_job("c02", "C02"), dict(name="scen-d10", variant="debug", stage=0, args=["scen", "--which", "d10", "--prop", "C02"], shards=dict(quick=1, thorough=1))]),
+        jobs=rc_jobs("c02", "C02", "snap_destruct", focused="c02f", extra=[choreo_job("C02", "snap_destruct"), scen_job("c02", "C02"), dict(name="scen-d13", variant="debug", stage=0, args=["scen", "--which", "d13", "--prop", "C02"], shards=dict(quick=1, thorough=1)), dict(name="scen-d10", variant="debug", stage=0, args=["scen", "--which", "d10", "--prop", "C02"], shards=dict(quick=1, thorough=1))]),
         rule=RULE_RC + "the execution contained a destruct attempt (root or cascade) on an object for which a Snapshot record existed",
         accept=["C02"], assumptions=RC_ASSUME, floor=dict(quick=50, thorough=500),
     ),
     "C03": dict(
-        jobs=rc_jobs("c03", "C03", "weak_dealloc", focused="c03f"),
+        jobs=rc_jobs("c03", "C03", "weak_dealloc", focused="c03f", extra=[choreo_job("C03", "weak_dealloc", "c03g"), choreo_job("C03", "weak_dealloc", "c03h")]),
         rule=RULE_RC + "the execution deallocated an object that had at least one weak holder",
         accept=["C03"], assumptions=RC_ASSUME, floor=dict(quick=50, thorough=500),
     ),
@@ -147,7 +147,8 @@ CHECKS = {
     "C19": dict(
         jobs=[seq_job("c19", "debug")],
         rule="all pairs and triples over a pool of 14 pointers (null, tagged nulls, A, A with tags, A loaded at 3 epochs, B equal to A, C, D) for Rc and Snapshot: "
-             "==, partial_cmp, cmp, two hashers vs Option<&T>; Eq/Ord/Hash laws; ptr_eq = identity+tag; distinct = distinct ordered pairs", exhaustive=True,
+             "==, partial_cmp, cmp, two hashers vs Option<&T>; Eq/Ord/Hash laws; ptr_eq = identity+tag; plus a pool of 12 pointers to a PartialEq/PartialOrd-only referent "
+             "(NaN objects, clones, tags, two write epochs, equal and different floats): ==, !=, partial_cmp, <, <=, >, >= vs Option<&T>; distinct = distinct ordered pairs", exhaustive=True,
         accept=["C19"], assumptions=SEQ_ASSUME, floor=dict(quick=100, thorough=100),
     ),
     "C20": dict(
@@ -198,7 +199,11 @@ EBR_ASSUME = ["guards are registered with the monitor after pin() returned and d
               "hooks (cargo feature circ_verif) do not change the behaviour of the library"]
 
 CHECKS.update({
-    "C13": dict(jobs=ebr_jobs("c13", "C13"), rule=RULE_EBR + "a closure was deferred while at least one foreign guard was registered",
+    "C13": dict(jobs=ebr_jobs("c13", "C13") + [
+                    dict(name="scen-d13", variant="debug", stage=0, args=["scen", "--which", "d13", "--prop", "C13"], shards=dict(quick=1, thorough=1)),
+                    dict(name="c16rc-S", variant="debug", stage=0, args=["rc", "--profile", "c16rc", "--mode", "S", "--prop", "C13", "--relevant", "any_destruct"],
+                         shards=dict(quick=10, thorough=16), secs=dict(quick=20, thorough=200))],
+                accept_sig=[r"^C02\|destruct-while-snapshot", r"^C02\|deref-dead"], rule=RULE_EBR + "a closure was deferred while at least one foreign guard was registered",
                 accept=["C13"], assumptions=EBR_ASSUME, floor=dict(quick=50, thorough=500)),
     "C14": dict(jobs=ebr_jobs("c14", "C14") + rc_jobs("c14", "C14", "cascade", s_secs=(8, 60), p_secs=(4, 30), asan=False)[:1],
                 rule=RULE_EBR + "the global epoch advanced while a foreign guard was registered (every yield point samples the global epoch and every registered guard's announced epoch)",
@@ -208,6 +213,9 @@ CHECKS.update({
     "C16": dict(jobs=ebr_jobs("c16", "C16", extra=[
                     dict(name="c16-enum", variant="release", stage=0, args=["c16enum", "--len", "{len}"], shards=dict(quick=1, thorough=1)),
                     dict(name="scen-d10", variant="debug", stage=0, args=["scen", "--which", "d10", "--prop", "C16"], shards=dict(quick=1, thorough=1)),
+                    dict(name="scen-d13", variant="debug", stage=0, args=["scen", "--which", "d13", "--prop", "C16"], shards=dict(quick=1, thorough=1)),
+                    dict(name="c16rc-S", variant="debug", stage=0, args=["rc", "--profile", "c16rc", "--mode", "S", "--prop", "C16", "--relevant", "any_destruct"],
+                         shards=dict(quick=6, thorough=16), secs=dict(quick=15, thorough=200)),
                 ]),
                 rule=RULE_EBR + "every execution (the pinned-state model is evaluated after every guard operation); plus the exhaustive enumeration of all single-thread guard programs up to length 6 (quick) / 8 (thorough)",
                 accept=["C16"], assumptions=EBR_ASSUME, floor=dict(quick=50, thorough=500)),
